@@ -258,6 +258,15 @@ struct PRun {
         }
         std::vector<int> codes = codes_since(mark);
         std::string rn = READER_NAME[inner_of >= 0 ? inner_of : reader];
+        // the handler-visible error flag agrees with what was raised in this unit so far
+        if (!v.violated) {
+            bool any_in_unit = false;
+            if (UnitRec *u = w.unit())
+                for (int e : u->errs) any_in_unit |= e != 0;
+            if ((bool) SCPI_ParamErrorOccurred(c) != any_in_unit)
+                v.fail("error-flag", fmt("reader=%s flag=%d raised=%d", rn.c_str(), (int) SCPI_ParamErrorOccurred(c), any_in_unit),
+                       fmt("after %s: SCPI_ParamErrorOccurred()=%d but %s error was raised in this unit", rn.c_str(), (int) SCPI_ParamErrorOccurred(c), any_in_unit ? "an" : "no"));
+        }
         std::string copied(tb, tlen < 300 ? tlen : 300);
         free(tb);
         bool raised = !codes.empty();
